@@ -68,7 +68,7 @@ def run(db, cx):
                  "a write to the kinetic energy outside the ledger methods bypasses the "
                  "deposit/secondary bookkeeping: energy appears or disappears unbooked")
     w = field_writers(db, F_EDEP)
-    cx.floor("writers of energy_deposition", len(w), 3)
+    cx.floor("writers of energy_deposition", len(w), 2)
     check_owners(cx, "C01.1-writers", "energy_deposition", w,
                  {PSV + "::reset_energy_deposition", PSV + "::reset_energy_deposition_debug",
                   PSV + "::deposit_energy"},
